@@ -1,76 +1,28 @@
-"""Path analysis of the exchange functions of Client (those that call <sock>.sendall) shared by
-C01 (ORD colour), C10 (ASYNC colour) and C07 (swallow coverage)."""
+"""Path analysis of the request/response functions of Client, shared by C01 (ORD colour), C10 (ASYNC colour),
+C07 (swallow coverage), C03 (chunk liveness) and C05.
+
+Private helper methods of Client are *inlined* by the path interpreter (Domain.inline), so extracting the send step,
+the read step or an error check into a helper does not change what is analysed.  Reader functions are first-class
+values (FuncRef): `_reader = partial(_readsegment, ...)` or a reader passed as an argument is followed by value.
+
+  request/response function (root) = a Client method in whose dynamic extent both a send (<sock>.sendall) and a read
+  (a call of a recv-reaching module function) occur, and none of whose private callees already has both."""
 import ast
 from collections import namedtuple
 
 from .model import AnalysisError, node_src, is_self_attr, call_name
-from .paths import Interp, Domain, Env, TOP, Const, Neq, NONE, Opaque, Exc, ORD, ASYNC, fmt_trace, Ctx
+from .paths import Interp, Domain, Env, TOP, Const, Neq, NONE, Opaque, FuncRef, Exc, ORD, ASYNC, fmt_trace, Ctx
 from .report import walk_no_nested
 
 Truthiness = namedtuple("Truthiness", "b")
 
 READERS_BASE = "pymemcache/client/base.py"
+# Client methods that are summarised rather than inlined
+SUMMARISED = ("close", "disconnect_all", "_connect", "check_key", "_check_integer", "_check_cas")
 
 
 def _has_sendall(f):
     return any(isinstance(n, ast.Call) and isinstance(n.func, ast.Attribute) and n.func.attr == "sendall" for n in walk_no_nested(f.node))
-
-
-def send_helpers(prog):
-    """Client methods that send (contain <sock>.sendall) but read no reply: wrappers around the send step.
-    A call of such a helper is a send event of its caller."""
-    direct, readers = recv_reaching_functions(prog)
-    rm = methods_reaching_readers(prog, readers)
-    out = {}
-    for f in prog.cls("Client").methods.values():
-        if not _has_sendall(f):
-            continue
-        reads = False
-        al = local_reader_aliases(f, readers) | set(readers)
-        for n in walk_no_nested(f.node):
-            if isinstance(n, ast.Call) and ((isinstance(n.func, ast.Name) and n.func.id in al) or (isinstance(n.func, ast.Attribute) and is_self_attr(n.func) and n.func.attr in rm)):
-                reads = True
-        if not reads:
-            out[f.name] = f
-    return out
-
-
-def exchange_functions(prog):
-    """Client methods that send: directly (<sock>.sendall) or through a send helper."""
-    helpers = send_helpers(prog)
-    out = []
-    for f in prog.cls("Client").methods.values():
-        if _has_sendall(f):
-            out.append(f)
-            continue
-        for n in walk_no_nested(f.node):
-            if isinstance(n, ast.Call) and isinstance(n.func, ast.Attribute) and is_self_attr(n.func) and n.func.attr in helpers:
-                out.append(f)
-                break
-    return sorted(out, key=lambda f: f.node.lineno)
-
-
-def reading_exchange_functions(prog):
-    """Exchange functions that also read replies (the request/response functions proper)."""
-    helpers = send_helpers(prog)
-    return [f for f in exchange_functions(prog) if f.name not in helpers]
-
-
-_SUMMARY = {}
-
-
-def helper_summary(prog, fn, readers, reader_methods):
-    """For a send helper: does every exit by an exception of the given colour, after sendall started, pass close?"""
-    key = (id(prog), fn.qualname)
-    if key in _SUMMARY:
-        return _SUMMARY[key]
-    res = {}
-    runs = analyse_exchange(prog, fn, readers, reader_methods, with_async=True, helpers={})
-    for colour in (ORD, ASYNC):
-        obs = close_obligations(prog, fn, runs, colour)
-        res[colour] = all(o[0] for o in obs) if obs else True
-    _SUMMARY[key] = res
-    return res
 
 
 def recv_reaching_functions(prog):
@@ -96,8 +48,70 @@ def recv_reaching_functions(prog):
     return direct, reach
 
 
+def _private_callees(prog, f):
+    client = prog.cls("Client")
+    out = []
+    for n in walk_no_nested(f.node):
+        if isinstance(n, ast.Call) and isinstance(n.func, ast.Attribute) and is_self_attr(n.func) and n.func.attr in client.methods and n.func.attr.startswith("_") and n.func.attr not in SUMMARISED:
+            out.append(client.methods[n.func.attr])
+    return out
+
+
+def _facts(prog):
+    """name -> (sends?, reads?) transitively over private helper methods of Client."""
+    cache = prog.__dict__.setdefault("_exch_facts", None)
+    if cache is not None:
+        return cache
+    direct, readers = recv_reaching_functions(prog)
+    client = prog.cls("Client")
+    send = {n: _has_sendall(f) for n, f in client.methods.items()}
+    read = {n: any(isinstance(x, ast.Name) and x.id in readers and isinstance(x.ctx, ast.Load) for x in walk_no_nested(f.node)) for n, f in client.methods.items()}
+    changed = True
+    while changed:
+        changed = False
+        for n, f in client.methods.items():
+            for g in _private_callees(prog, f):
+                if send[g.name] and not send[n]:
+                    send[n] = True
+                    changed = True
+                if read[g.name] and not read[n]:
+                    read[n] = True
+                    changed = True
+    prog.__dict__["_exch_facts"] = (send, read)
+    return send, read
+
+
+def exchange_functions(prog):
+    """The request/response functions (roots), in source order."""
+    send, read = _facts(prog)
+    client = prog.cls("Client")
+    out = []
+    for n, f in client.methods.items():
+        if not (send[n] and read[n]) or not n.startswith("_"):
+            continue
+        if any(send[g.name] and read[g.name] for g in _private_callees(prog, f)):
+            continue
+        out.append(f)
+    return sorted(out, key=lambda f: f.node.lineno)
+
+
+reading_exchange_functions = exchange_functions
+
+
+def sendall_methods(prog):
+    return sorted([f for f in prog.cls("Client").methods.values() if _has_sendall(f)], key=lambda f: f.node.lineno)
+
+
+def send_helpers(prog):
+    """Client methods that send but are not request/response functions (wrappers around the send step)."""
+    roots = {f.name for f in exchange_functions(prog)}
+    send, read = _facts(prog)
+    return {n: f for n, f in prog.cls("Client").methods.items() if n.startswith("_") and send[n] and n not in roots and not read[n]}
+
+
 def local_reader_aliases(fn, readers):
-    """Names inside fn bound to a reader: `_reader = _readline`, `_reader = partial(_readsegment, ...)`."""
+    """Names inside fn bound to a reader: `_reader = _readline`, `_reader = partial(_readsegment, ...)`, and
+    parameters whose default or use is a reader (a reader passed in by the caller)."""
     al = set()
     for n in walk_no_nested(fn.node):
         if isinstance(n, ast.Assign) and len(n.targets) == 1 and isinstance(n.targets[0], ast.Name):
@@ -109,27 +123,25 @@ def local_reader_aliases(fn, readers):
     return al
 
 
-def methods_reaching_readers(prog, readers):
-    """Client methods that call a reader function directly (e.g. _extract_value)."""
-    out = set()
-    for f in prog.cls("Client").methods.values():
-        for n in walk_no_nested(f.node):
-            if isinstance(n, ast.Call) and isinstance(n.func, ast.Name) and n.func.id in readers:
-                out.add(f.name)
-    return out
+def methods_reaching_readers(prog, readers=None):
+    """Private Client methods (other than the roots) in whose extent a reader is called, e.g. _extract_value or an
+    extracted _read_reply helper."""
+    send, read = _facts(prog)
+    roots = {f.name for f in exchange_functions(prog)}
+    return {n for n in prog.cls("Client").methods if n.startswith("_") and read[n] and n not in roots and not send[n]}
 
 
 class ExchangeDomain(Domain):
     """Tracked facts: sent (a sendall was started), closed (Client.close passed since), caught (colour of an
     exception intercepted since the sendall), reads (reader calls since the sendall: 0 / 1 = one or more)."""
 
-    def __init__(self, prog, fn, readers, reader_methods, with_async=True, helpers=None):
+    global_keys = ("sent", "closed", "caught", "reads", "noreply_root", "nread")
+
+    def __init__(self, prog, fn, readers, reader_methods=None, with_async=True, helpers=None):
         super().__init__(prog, fn)
-        if helpers is None:
-            helpers = {n: helper_summary(prog, h, readers, reader_methods) for n, h in send_helpers(prog).items() if n != fn.name}
-        self.helpers = helpers
-        self.readers = set(readers) | local_reader_aliases(fn, readers)
-        self.reader_methods = reader_methods
+        self.readers = set(readers)
+        self.aliases = local_reader_aliases(fn, readers)  # syntactic fallback when a loop body is analysed on its own
+        self.module = prog.module(READERS_BASE)
         self.async_enabled = with_async
         self.events = []  # (kind, node, state)
         self.n_sendall = 0
@@ -142,10 +154,19 @@ class ExchangeDomain(Domain):
     def truth(self, v, state=None):
         if isinstance(v, Truthiness):
             return v.b
+        if isinstance(v, FuncRef):
+            return True
         return super().truth(v, state)
 
     def never_none(self, v):
-        return (isinstance(v, Truthiness) and v.b) or super().never_none(v)
+        return (isinstance(v, Truthiness) and v.b) or isinstance(v, FuncRef) or super().never_none(v)
+
+    def name_load(self, name, state, node=None):
+        if state.has(name):
+            return state.get(name)
+        if name in self.module.functions:
+            return FuncRef(name)
+        return TOP
 
     def assume_name(self, key, value, branch, state):
         if value is TOP and (key.startswith("self.") or key in ("noreply",)):
@@ -153,10 +174,21 @@ class ExchangeDomain(Domain):
         return super().assume_name(key, value, branch, state)
 
     def on_catch(self, handler, exc, state):
-        if state.get("sent"):
-            cur = state.get("caught")
+        if state.get("sent", 0):
+            cur = state.get("caught", None)
             if cur != ASYNC:
                 state = state.set("caught", exc.colour)
+        return state
+
+    def is_reader_call(self, node, fval):
+        if isinstance(fval, FuncRef) and fval.name in self.readers:
+            return True
+        if isinstance(node.func, ast.Name) and node.func.id in self.readers:
+            return True
+        return fval is TOP and not self.frames and isinstance(node.func, ast.Name) and node.func.id in self.aliases
+
+    def on_read(self, node, args, state):
+        """Hook for subclasses (counting, chunk tracking)."""
         return state
 
     def call(self, node, fval, args, kwargs, state):
@@ -165,45 +197,41 @@ class ExchangeDomain(Domain):
             self.n_sendall += 1
             s2 = state.update({"sent": 1, "closed": 0, "caught": None, "reads": 0})
             return [("ok", NONE, s2.set("self.sock", Neq(None)))] + self.call_raises(node, s2)
-        if name.startswith("self.") and name[5:] in self.helpers:
-            # a send helper: the request goes out here; whether a failing helper has already closed is its summary
-            self.n_sendall += 1
-            summ = self.helpers[name[5:]]
-            s2 = state.update({"sent": 1, "closed": 0, "caught": None, "reads": 0})
-            out = [("ok", NONE, s2.set("self.sock", Neq(None)))]
-            out.append(("exc", Exc(ORD, None, node.lineno), s2.set("closed", 1 if summ.get(ORD) else 0)))
-            if self.async_enabled:
-                out.append(("exc", Exc(ASYNC, None, node.lineno), s2.set("closed", 1 if summ.get(ASYNC) else 0)))
-            return out
         if name in ("self.close", "self.disconnect_all"):
             self.n_close_calls.add(node.lineno)
             s2 = state.set("closed", 1).set("self.sock", NONE)
             # Client.close is summarised as not raising (C06.R6); an interruption inside the cleanup call itself is
             # not an interruption point of the property's quantifier.
             return [("ok", NONE, s2)]
-        is_reader = (isinstance(node.func, ast.Name) and node.func.id in self.readers) or (
-            isinstance(node.func, ast.Attribute) and is_self_attr(node.func) and node.func.attr in self.reader_methods
-        )
-        if is_reader:
+        if name in ("partial", "functools.partial") and args and isinstance(args[0], FuncRef):
+            return [("ok", args[0], state)]
+        if self.is_reader_call(node, fval):
             self.n_reader_calls.add(node.lineno)
             self.events.append(("read", node, state))
-            s2 = state.set("reads", 1)
+            s2 = self.on_read(node, args, state.set("reads", 1))
             return [("ok", TOP, s2)] + self.call_raises(node, state)
         if name == "self._connect":
             return [("ok", NONE, state.set("self.sock", Neq(None)))] + self.call_raises(node, state)
-        if name in ("isinstance", "len", "logger.debug", "partial"):
+        if name in ("isinstance", "len", "logger.debug"):
             return [("ok", TOP, state)]
+        if name.startswith("self.") and name.count(".") == 1 and self.prog is not None:
+            m = self.prog.cls("Client").methods.get(name[5:])
+            if m is not None and name[5:].startswith("_") and name[5:] not in SUMMARISED:
+                res = self.inline(node, m, args, kwargs, state)
+                if res is not None:
+                    return res
         return [("ok", TOP, state)] + self.call_raises(node, state)
 
 
-def analyse_exchange(prog, fn, readers, reader_methods, with_async=True, helpers=None):
-    """Run the path interpreter on one exchange function for every truthiness of noreply / ignore_exc / self.sock.
-    Returns list of (config, outs, dom)."""
+def analyse_exchange(prog, fn, readers, reader_methods=None, with_async=True, helpers=None, domain_cls=None):
+    """Run the path interpreter on one request/response function for every truthiness of noreply / ignore_exc.
+    Returns list of (config, outs, dom, interp)."""
     runs = []
     has_noreply = fn.param("noreply") is not None
+    cls = domain_cls or ExchangeDomain
     for noreply in ((True, False) if has_noreply else (None,)):
         for ign in (True, False):
-            dom = ExchangeDomain(prog, fn, readers, reader_methods, with_async=with_async, helpers=helpers)
+            dom = cls(prog, fn, readers, None, with_async=with_async)
             st = dom.init_state(fn.node).set("self.ignore_exc", Truthiness(ign))
             if noreply is not None:
                 st = st.set("noreply", Truthiness(noreply))
@@ -214,7 +242,7 @@ def analyse_exchange(prog, fn, readers, reader_methods, with_async=True, helpers
 
 
 def close_obligations(prog, fn, runs, colour):
-    """For each exit of the function: (ok, construct, message, witness).  colour = ORD or ASYNC."""
+    """For each exit of the function: (ok, kind, exc, cfg, trace, state).  colour = ORD or ASYNC."""
     res = []
     for cfg, outs, dom, interp in runs:
         for s, exc, t in outs.of("exc"):
